@@ -111,6 +111,13 @@ claim("C14",
       "Relative to AxiosSem (axios calling conventions written in Coq); the client is not executed nor type-checked (no TypeScript toolchain offline): syntactic validity is what the harness reader accepts. Trusted: that reader.",
       "Coq proof (request = specification) + parsed-client correspondence + semantic check of parsed methods", "DESIGN.md §5 C14")
 
+claim("C06",
+      "Coq theorems: constructor arguments / JSON keys of a class are one per field encoding/json serialises, in order (via C09); the value table of a non-positional enum round-trips every listed wire value; for positional enums the index of an exported member is its value (via the soundness of the iota flag, C10). "
+      "Tied to /repo by parsing the real Dart files (imports, definitions, uses, classes with implements lists and constructor arguments, union dispatch tables, enum member/value tables) and comparing the tables with the model computed from go/types facts and the observed analysis; "
+      "the link conditions (each used class / typedef / helper defined exactly once in the file or its imports, imports exist, no self import) are evaluated in Coq on the parsed files.",
+      "Relative to DartSem (enum conversions only); generated Dart is never executed or analysed (no SDK offline). Trusted: the regex reader of the Dart files. The linker's file assignment is checked only through the link conditions.",
+      "Coq proof (enum conversion lemmas, key lemma via C09) + parsed-table correspondence + link resolution evaluated in Coq", "DESIGN.md §5 C06")
+
 NOT_YET = "check not built yet in this round (planned, see DESIGN.md §6)"
 
 checks, na = [], []
